@@ -78,6 +78,26 @@ NATIVE_MODULES = {
 }
 
 
+_TOOLZ = []
+
+
+def _load_toolz():
+    """toolz is pure python and only installed in /venv: load it by path (tlz == toolz without cytoolz)."""
+    if _TOOLZ:
+        return _TOOLZ[0]
+    import importlib.util
+    import sys
+
+    d = "/venv/lib/python3.12/site-packages/toolz"
+    if "toolz" not in sys.modules:
+        sp = importlib.util.spec_from_file_location("toolz", d + "/__init__.py", submodule_search_locations=[d])
+        m = importlib.util.module_from_spec(sp)
+        sys.modules["toolz"] = m
+        sp.loader.exec_module(m)
+    _TOOLZ.append(sys.modules["toolz"])
+    return _TOOLZ[0]
+
+
 class IModule:
     def __init__(self, world, name, path):
         self.world = world
@@ -186,6 +206,8 @@ class World:
                 raise Unsupported(f"repo module {name} not found")
             return m
         top = name.split(".")[0]
+        if top in ("toolz", "tlz"):
+            return _load_toolz()
         if name in NATIVE_MODULES or top in ("math", "itertools", "functools", "operator", "numpy", "networkx", "collections"):
             try:
                 return importlib.import_module(name)
